@@ -42,7 +42,7 @@ func dbBehaviourOf(ip net.IP) dbBehaviour {
 	return dbHit
 }
 
-var countries = []string{"US", "DE", "BR", "IN", "JP", "ZA"}
+var countries = []string{"US", "DE", "BR", "IN", "JP", "ZA", "XK"} // XK: a user-assigned code real databases do return (Kosovo)
 
 func dbAnswer(ip net.IP) ipinfo.IPInfo {
 	ip16 := ip.To16()
